@@ -225,6 +225,20 @@ class Algebra(object):
                     r[m] = v
         return Poly(r)
 
+    def substitute(self, p, mapping):
+        """p with every variable v in `mapping` replaced by the polynomial mapping[v] (other variables kept); relations applied"""
+        out = Poly()
+        for m, c in p.t.items():
+            term = Poly.const(c)
+            for (v, e) in m:
+                base = mapping.get(v)
+                if base is None:
+                    base = Poly.var(v)
+                for _ in range(e):
+                    term = self.mul(term, base)
+            out = out + term
+        return self.reduce(out) if self.rel else out
+
     def add_relation(self, var, poly):
         self.rel[var] = poly
         self.memo.clear()
@@ -350,6 +364,13 @@ class Algebra(object):
 
     def sqrt_r(self, a):
         a = self.r_norm(a)
+        if a[1] == ONE and a[0].is_const():
+            k = a[0].const_value()
+            if k >= 0:
+                import math as _m
+                rn, rd = _m.isqrt(k.numerator), _m.isqrt(k.denominator)
+                if rn * rn == k.numerator and rd * rd == k.denominator:
+                    return (Poly.const(Fraction(rn, rd)), ONE)       # exact rational square root
         if a[1] != ONE and self._nonneg(a[1]):
             # sqrt(n/d) = sqrt(n*d)/d for d > 0: keeps the relation polynomial
             inner = self.sqrt_r((self.mul(a[0], a[1]), ONE))
